@@ -289,7 +289,7 @@ def gen_case(rnd, ctx, maxlen):
         d["w"] = rnd.choice([None, None, "plain", "pylist"])
         objs.append(d)
     nh = rnd.randint(1, 3)
-    handlers = [rnd.choice(["func", "meth"]) for _ in range(nh)]
+    handlers = [rnd.choice(["func", "func", "rfunc", "meth", "meth"]) for _ in range(nh)]
     bad = rnd.choice([0.0, 0.15, 0.5])
     graphsets = []
     for _ in range(rnd.randint(1, 3)):
@@ -380,7 +380,7 @@ def gen_dyn_case(rnd, ctx, maxlen):
         d["s"] = sorted(set(rnd.choice(hi) for _ in range(rnd.choice([0, 1, 2])))) if hi else []
         objs.append(d)
     nh = rnd.randint(1, 3)
-    handlers = [rnd.choice(["func", "meth"]) for _ in range(nh)]
+    handlers = [rnd.choice(["func", "func", "rfunc", "meth", "meth"]) for _ in range(nh)]
     if rnd.random() < 0.3:
         graphsets = [rnd.choice(TEXTS[:12]) for _ in range(rnd.randint(1, 3))]
     else:
@@ -522,6 +522,56 @@ def corpus():
     return cs
 
 
+def _paths(g, pre=()):
+    yield pre
+    for i, c in enumerate(g[4]):
+        yield from _paths(c, pre + (i,))
+
+
+def _replace(g, path, new):
+    if not path:
+        return new
+    ch = list(g[4])
+    ch[path[0]] = _replace(ch[path[0]], path[1:], new)
+    return [g[0], g[1], g[2], g[3], ch]
+
+
+def enum_failure_cases():
+    """Failure injected at EVERY position of the walk: for a fixed set of graphs over a fixed pool, every node in
+    turn is replaced by one that cannot apply (unknown trait / wrong container kind / non-optional item node on a
+    HasTraits object); the failing graph is registered alone, after a good parallel graph, before one, and used
+    for a removal while the good graph is registered."""
+    objs = [{"cls": "N", "f": 1, "g": 2, "kids": [1, 2, 1], "m": [1, 2], "s": [2]},
+            {"cls": "N", "f": 3, "g": 3, "kids": [3], "m": [3], "s": [3]},
+            {"cls": "N", "f": 3, "kids": [3, 3], "m": [], "s": []},
+            {"cls": "N", "kids": [], "m": [], "s": []}]
+    v = N_("value")
+    bases = [N_("kids", True, False, [I_("list", True, False, [N_("f", True, False, [v])])]),
+             N_("f", True, False, [N_("kids", False, False, [I_("list", True, False, [v])]), N_("value2")]),
+             N_("m", True, False, [I_("dict", True, False, [N_("g", True, True, [v]), N_("f", False, False, [v])])]),
+             N_("s", False, False, [I_("set", False, False, [N_("kids", True, False, items_dsl([v]))])]),
+             N_("g", True, False, [N_("f", True, False, [N_("value"), N_("value2", False)])])]
+    bads = [N_("nonexist"), N_("nonexist", True, False, [v]), I_("dict", True, False, [v]), I_("list", True, False, [v])]
+    good = N_("f", True, False, [N_("value2")])
+    chg = [["Change", 1, 2], ["Change", 3, 2], ["Change", 3, 10], ["Change", 1, 10]]
+    cs = []
+    for b_ in bases:
+        base = canon_graph(b_)
+        for path in _paths(base):
+            for bad in bads:
+                g = canon_graph(_replace(base, path, bad))
+                if g == base:
+                    continue
+                for hk in ("func", "meth"):
+                    cs.append(dict(objs=objs, handlers=[hk], ops=[
+                        ["Reg", 0, 0, 0, [g], None], ["Reg", 0, 0, 0, [good, g], None], ["Reg", 0, 0, 0, [g, good], None]]
+                        + chg + [["Reg", 0, 0, 0, [base, good], None], ["Unreg", 0, 0, 0, [good, g], None],
+                                 ["Unreg", 0, 0, 0, [g], None]] + chg +
+                        [["Unreg", 0, 0, 0, [base, good], None], ["Unreg", 0, 0, 0, [base], None]] + chg))
+                    break
+    return cs
+
+
 def run_block(ctx, cases, tag, evaluate):
     saved = hist.evaluate
     hist.evaluate = evaluate
@@ -541,6 +591,8 @@ def run(ctx):
         "modelled, not verified: CPython weakref/garbage collection timing (the model has explicit Collect operations; "
         "that del + gc.collect() really frees the object is observed on the interpreter), the expression compiler "
         "(text expressions are compiled by the implementation and the resulting graphs are the model's input)",
+        "C09/Dyn.v (heap mutations with maintainers) is an executable model compared with the implementation in the "
+        "dynamic cases; beyond the wfH invariant no theorem is stated about it (that is property C08)",
     ]
     ctx.cov["rule"] = ("random histories of register / unregister (1-3 parallel graphs, depth <= 4, named / list / dict / "
                        "set item nodes, notify and optional flags, failure points: missing trait, non-container, "
@@ -551,12 +603,16 @@ def run(ctx):
                        "1-3 handlers (function / bound method) x 3 dispatchers (same, a custom callable, ui on the main thread); a case is "
                        "non-trivial if some step raises or calls a handler; distinct = distinct (pool, handlers, history)")
     rnd = random.Random(ctx.seed)
-    n, maxlen = (560, 10) if ctx.tier == "quick" else (9000, 20)
+    n, maxlen = (480, 10) if ctx.tier == "quick" else (9000, 20)
     if ctx.replay:
         cases = [json.load(open(ctx.replay))["replay"]["case"]]
     else:
-        cases = corpus() + [gen_case(rnd, ctx, maxlen) if k % 3 else gen_dyn_case(rnd, ctx, maxlen + 4)
-                            for k in range(n)]
+        enum = enum_failure_cases()
+        if ctx.tier == "quick":
+            enum = rnd.sample(enum, 24)
+        ctx.count("case:failure-at-every-position", len(enum))
+        cases = corpus() + enum + [gen_case(rnd, ctx, maxlen) if k % 3 else gen_dyn_case(rnd, ctx, maxlen + 4)
+                                   for k in range(n)]
     for c in cases[:2] + cases[-2:]:
         ctx.sample(c)
     # shards of 100 cases (the terms are large: parsing dominates); one driver run per block of 2400 cases
